@@ -80,12 +80,12 @@ theorem schemeLoopNoBody_id : ∀ (l : List Scheme) (r : Req), r.body = none →
         simp only [Bool.not_true, Bool.false_eq_true, if_false, if_true, runAuth_body_none r s.auth h]
         exact schemeLoopNoBody_id rest r h
 
-theorem secReq_coherent (f : Bool) (r : Req) (l : List Scheme) (data : Bytes) (h : Coherent r data) :
-    Coherent (secReq f r l).1 data ∧
-    (r.contentLength = data.length → (secReq f r l).1.contentLength = data.length) ∧
-    (∀ x ∈ (secReq f r l).2.2, x = data) := by
+theorem secReqNE_coherent (f : Bool) (r : Req) (l : List Scheme) (data : Bytes) (h : Coherent r data) :
+    Coherent (secReqNE f r l).1 data ∧
+    (r.contentLength = data.length → (secReqNE f r l).1.contentLength = data.length) ∧
+    (∀ x ∈ (secReqNE f r l).2.2, x = data) := by
   obtain ⟨hb, hg⟩ := h
-  unfold secReq
+  unfold secReqNE
   cases f with
   | false => simp [Coherent, hb, hg]
   | true =>
@@ -94,6 +94,15 @@ theorem secReq_coherent (f : Bool) (r : Req) (l : List Scheme) (data : Bytes) (h
     refine ⟨⟨restore_body _ data i1, restore_getOK _ data i1⟩, ?_, i3⟩
     intro hc
     exact restore_cl _ data (i2 (by simpa [drain] using hc))
+
+theorem secReq_coherent (f : Bool) (r : Req) (l : List Scheme) (data : Bytes) (h : Coherent r data) :
+    Coherent (secReq f r l).1 data ∧
+    (r.contentLength = data.length → (secReq f r l).1.contentLength = data.length) ∧
+    (∀ x ∈ (secReq f r l).2.2, x = data) := by
+  unfold secReq
+  split
+  · exact ⟨h, fun hc => hc, by simp⟩
+  · exact secReqNE_coherent f r l data h
 
 theorem secReqs_coherent (f : Bool) (data : Bytes) : ∀ (qs : List (List Scheme)) (r : Req), Coherent r data →
     Coherent (secReqs f r qs).1 data ∧
@@ -124,11 +133,17 @@ theorem secPhase_coherent (f : Bool) (r : Req) (qs : List (List Scheme)) (data :
   | nil => simp [h]
   | cons q rest => exact secReqs_coherent f data (q :: rest) r h
 
-theorem secReq_nobody (f : Bool) (r : Req) (l : List Scheme) (h : r.body = none) : (secReq f r l).1 = r := by
-  unfold secReq
+theorem secReqNE_nobody (f : Bool) (r : Req) (l : List Scheme) (h : r.body = none) : (secReqNE f r l).1 = r := by
+  unfold secReqNE
   cases f with
   | false => simp
   | true => simp only [Bool.not_true, Bool.false_eq_true, if_false, h]; exact schemeLoopNoBody_id l r h
+
+theorem secReq_nobody (f : Bool) (r : Req) (l : List Scheme) (h : r.body = none) : (secReq f r l).1 = r := by
+  unfold secReq
+  split
+  · rfl
+  · exact secReqNE_nobody f r l h
 
 theorem secReqs_nobody (f : Bool) : ∀ (qs : List (List Scheme)) (r : Req), r.body = none → (secReqs f r qs).1 = r
   | [], r, _ => by simp [secReqs]
@@ -234,14 +249,20 @@ theorem schemeLoopNoBody_verdict : ∀ (l : List Scheme) (r : Req), (schemeLoopN
     unfold schemeLoopNoBody verdictOf
     cases hd : s.declared <;> cases ha : s.auth.ok <;> simp [schemeLoopNoBody_verdict rest]
 
-theorem secReq_verdict (f : Bool) (r : Req) (l : List Scheme) : (secReq f r l).2.1 = (f && verdictOf l) := by
-  unfold secReq
+theorem secReqNE_verdict (f : Bool) (r : Req) (l : List Scheme) : (secReqNE f r l).2.1 = (f && verdictOf l) := by
+  unfold secReqNE
   cases f with
   | false => rfl
   | true =>
     cases hb : r.body with
     | none => simp [schemeLoopNoBody_verdict]
     | some d => simp [schemeLoop_verdict]
+
+theorem secReq_verdict (f : Bool) (r : Req) (l : List Scheme) : (secReq f r l).2.1 = (l.isEmpty || (f && verdictOf l)) := by
+  unfold secReq
+  split
+  · rename_i h; simp [h]
+  · rename_i h; simp [h, secReqNE_verdict]
 
 /-- with a working GetBody the scheme loop changes nothing but (possibly) the read position -/
 theorem schemeLoop_fields (data e : Bytes) : ∀ (l : List Scheme) (r : Req), r.getBody = .ok e →
@@ -264,8 +285,8 @@ theorem schemeLoop_fields (data e : Bytes) : ∀ (l : List Scheme) (r : Req), r.
         obtain ⟨i1, i2⟩ := schemeLoop_fields data e rest _ hg
         exact ⟨i1, i2.trans hc⟩
 
-theorem secReq_settled (f : Bool) (r : Req) (l : List Scheme) (e : Bytes) (h : Settled r e) : (secReq f r l).1 = r := by
-  unfold secReq
+theorem secReqNE_settled (f : Bool) (r : Req) (l : List Scheme) (e : Bytes) (h : Settled r e) : (secReqNE f r l).1 = r := by
+  unfold secReqNE
   cases f with
   | false => rfl
   | true =>
@@ -278,6 +299,12 @@ theorem secReq_settled (f : Bool) (r : Req) (l : List Scheme) (e : Bytes) (h : S
     rw [this]
     cases r
     simp_all [drain]
+
+theorem secReq_settled (f : Bool) (r : Req) (l : List Scheme) (e : Bytes) (h : Settled r e) : (secReq f r l).1 = r := by
+  unfold secReq
+  split
+  · rfl
+  · exact secReqNE_settled f r l e h
 
 theorem secReqs_settled (f : Bool) (e : Bytes) : ∀ (qs : List (List Scheme)) (r : Req), Settled r e → (secReqs f r qs).1 = r
   | [], r, _ => rfl
@@ -302,7 +329,7 @@ theorem secReqs_verdict (f : Bool) : ∀ (qs : List (List Scheme)) (r r' : Req),
     unfold secReqs
     have e1 := secReq_verdict f r q
     have e2 := secReq_verdict f r' q
-    cases hv : (f && verdictOf q) with
+    cases hv : (q.isEmpty || (f && verdictOf q)) with
     | true => rw [hv] at e1 e2; simp [e1, e2]
     | false =>
       rw [hv] at e1 e2
@@ -317,10 +344,10 @@ theorem secPhase_verdict (f : Bool) (qs : List (List Scheme)) (r r' : Req) : (se
   | cons q rest => exact secReqs_verdict f (q :: rest) r r'
 
 /-- after a requirement that reads the body the request is settled; one that does not read leaves it alone -/
-theorem secReq_result (f : Bool) (r : Req) (l : List Scheme) (data : Bytes) (h : Coherent r data) :
-    (secReq f r l).1 = r ∨ Settled (secReq f r l).1 data := by
+theorem secReqNE_result (f : Bool) (r : Req) (l : List Scheme) (data : Bytes) (h : Coherent r data) :
+    (secReqNE f r l).1 = r ∨ Settled (secReqNE f r l).1 data := by
   obtain ⟨hb, hg⟩ := h
-  unfold secReq
+  unfold secReqNE
   cases f with
   | false => exact Or.inl rfl
   | true =>
@@ -333,6 +360,13 @@ theorem secReq_result (f : Bool) (r : Req) (l : List Scheme) (data : Bytes) (h :
     | ok b => simp only; rw [i1 b hgb]
     | none => rfl
     | fails => rfl
+
+theorem secReq_result (f : Bool) (r : Req) (l : List Scheme) (data : Bytes) (h : Coherent r data) :
+    (secReq f r l).1 = r ∨ Settled (secReq f r l).1 data := by
+  unfold secReq
+  split
+  · exact Or.inl rfl
+  · exact secReqNE_result f r l data h
 
 theorem secReqs_result (f : Bool) (data : Bytes) : ∀ (qs : List (List Scheme)) (r : Req), Coherent r data →
     (secReqs f r qs).1 = r ∨ Settled (secReqs f r qs).1 data
